@@ -506,6 +506,7 @@ SKIP_REVIEWED = {
     ("_add_reference_to_dependencies", "Attribute"): "attribute expressions are handled by the field-reference traversal of the same function",
     ("_add_reference_to_dependencies", "FieldReference"): "the components of a field reference are recorded by the FieldReference traversal (path[0])",
     ("_add_field_reference_to_dependencies", "Attribute"): "references inside attributes are not read when a field is located or read",
+    ("_add_resolved_field_reference_to_dependencies", "Attribute"): "same traversal as its twin, after the later path components are resolved: references inside attributes are not read when a field is located or read",
     ("compute_constraints_of_expression", "Expression"): "the action recurses into its operands",
     ("_type_check_expression", "Expression"): "the action recurses into its operands",
     ("_type_check_array_size", "Expression"): "the requirement concerns the size expression itself, not its operands (R-ROOTONLY)",
